@@ -149,6 +149,14 @@ func (c *compiler) evaluateAssertions() error {
 	return nil
 }
 
+// getAddressMode parses an address mode with the rule set of the configured mode
+func (c *compiler) getAddressMode(modeStr string) (AddressMode, error) {
+	if c.config.Mode == ICWS88 {
+		return getAddressMode88(modeStr)
+	}
+	return getAddressMode(modeStr)
+}
+
 func (c *compiler) assembleLine(in sourceLine) (Instruction, error) {
 	opLower := strings.ToLower(in.op)
 	var aMode, bMode AddressMode
@@ -159,7 +167,7 @@ func (c *compiler) assembleLine(in sourceLine) (Instruction, error) {
 			aMode = DIRECT
 		}
 	} else {
-		mode, err := getAddressMode(in.amode)
+		mode, err := c.getAddressMode(in.amode)
 		if err != nil {
 			return Instruction{}, fmt.Errorf("invalid amode: '%s'", in.amode)
 		}
@@ -172,7 +180,7 @@ func (c *compiler) assembleLine(in sourceLine) (Instruction, error) {
 			bMode = DIRECT
 		}
 	} else {
-		mode, err := getAddressMode(in.bmode)
+		mode, err := c.getAddressMode(in.bmode)
 		if err != nil {
 			return Instruction{}, fmt.Errorf("invalid bmode: '%s'", in.bmode)
 		}
